@@ -57,8 +57,48 @@ def skip_rules(F, rep, tk):
     rep.ob("TABLE", "operator-literals", not bad, "the %d operator / punctuation tokens carry their documented spelling (%s)" % (len(want_literals), bad or "ok"),
            sites=len(want_literals))
     want_rx = {"Identifier": "[A-Za-z_][A-Za-z0-9_]*", "Int": "[0-9]+", "String": '"[^"]*"', "Comment": r"//[^\n]*"}
-    bad = {k: tk.rules.get(k, {}).get("pattern") for k, v in want_rx.items() if tk.rules.get(k, {}).get("pattern") != v}
-    rep.ob("TABLE", "variable-tokens", not bad, "identifier / int / string / comment patterns as documented (%s)" % (bad or "ok"), sites=len(want_rx))
+    # compared as *languages* (inclusion both ways on the product automaton, rules/rxlang.py), not as spellings: `//[^\n]*`
+    # written as `//.*` is the same token, `//[^\n]+` is not (a comment that is only `//` becomes two Slash tokens)
+    import rxlang
+    for k, v in sorted(want_rx.items()):
+        got = tk.rules.get(k, {}).get("pattern")
+        if got is None:
+            rep.ob("TABLE", "variable-tokens|%s" % k, False, "no pattern for the %s token" % k)
+            continue
+        try:
+            w1, w2 = rxlang.not_included(v, got), rxlang.not_included(got, v)
+        except ValueError as ex:
+            rep.ob("TABLE", "variable-tokens|%s" % k, got == v, "the %s pattern `%s` uses a regex form the language comparison does not model (%s) and is not spelled as documented" % (k, got, ex))
+            continue
+        rep.ob("TABLE", "variable-tokens|%s" % k, w1 is None and w2 is None,
+               "the %s pattern `%s` matches exactly the documented language `%s`" % (k, got, v) if w1 is None and w2 is None else
+               "the %s pattern `%s` does not match the documented language `%s`: %s" % (
+                   k, got, v, ("%r is documented as a %s but not matched" % (w1, k)) if w1 is not None else ("%r is matched but is no %s" % (w2, k))))
+    # a pattern with a callback that can fail (`lex.slice().parse()`) matches only text the callback accepts: logos does not
+    # fall back to a shorter match when the callback of the longest match fails, so `1e` as one failed Float makes `1else` an
+    # Error followed by `lse` instead of Int(1) Else
+    F64 = r"[+-]?(inf|infinity|nan|([0-9]+|[0-9]+\.[0-9]*|[0-9]*\.[0-9]+)(e[+-]?[0-9]+)?)"
+    n_cb = 0
+    for name in tk.order:
+        r_ = tk.rules[name]
+        if r_["kind"] != "regex" or "parse()" not in (r_.get("callback") or ""):
+            continue
+        n_cb += 1
+        ref = F64 if name == "Float" else r"[0-9]+" if name == "Int" else r"true|false" if name == "Bool" else None
+        if ref is None:
+            rep.ob("CALLBACK-TOTAL", name, False, "the %s pattern has a parsing callback whose accepted syntax is not modelled" % name)
+            continue
+        try:
+            import re as _re2
+            w = rxlang.not_included(r_["pattern"], ref, _re2.I if name == "Float" else 0)
+        except ValueError as ex:
+            rep.ob("CALLBACK-TOTAL", name, False, "the %s pattern `%s` uses a regex form the language comparison does not model (%s)" % (name, r_["pattern"], ex))
+            continue
+        rep.ob("CALLBACK-TOTAL", name, w is None,
+               "every text the %s pattern matches has the syntax its parsing callback accepts" % name if w is None else
+               "the %s pattern `%s` matches %r, which `parse()` rejects: the longest match wins and then fails, so the text becomes an Error "
+               "token instead of the shorter tokens it consists of (`1else` is no longer Int(1) Else)" % (name, r_["pattern"], w))
+    rep.floor("CALLBACK-TOTAL", "patterns with a parsing callback", n_cb, 3)
     # the documented token set is ASCII: in logos (as in the regex crate) \d, \w and \s are Unicode classes, so `[\d]+`
     # also swallows Arabic-Indic digits (`1٣` is one Error token, not Int then Error) and makes the automaton read into the
     # bytes of any character that shares a lead byte with some Unicode digit (`1.` before an emoji is an Error, not a Float)
